@@ -220,6 +220,14 @@ fn run_schedule_x(kind: StoreKind, cap: usize, clean: bool, progs: &[Vec<Rq>], s
 fn gen_progs(rng: &mut Rng, k: usize, per: usize, hostile: bool) -> Vec<Vec<Rq>> {
     let t0: u64 = 1_700_000_000_000_000_000;
     let ordered = rng.chance(2, 3);
+    // contention style (2 of 5 program sets): every client sends the SAME request (one key, same limits, quantity 1) with
+    // timestamps spread over a few emission intervals - denials next to later-stamped identical requests, full and refilled buckets
+    if !hostile && rng.chance(2, 5) {
+        let b = *rng.pick(&[1i64, 1, 2]);
+        let count = *rng.pick(&[1i64, 1, 10]);
+        let step: u64 = if count == 1 { 1_000_000_000 } else { 100_000_000 };
+        return (0..k).map(|_| (0..per).map(|_| Rq { key: 0, b, count, period: 1, q: 1, now_ns: t0 + rng.below(4) * step }).collect()).collect();
+    }
     (0..k).map(|_| (0..per).map(|j| {
         if hostile && rng.chance(1, 3) {
             Rq { key: rng.below(2), b: *rng.pick(&[i64::MAX, 0, -1, 1 << 32, 2147483647]), count: *rng.pick(&[1i64, i64::MAX, 0]), period: *rng.pick(&[i64::MAX, 1, -5, 9223372036]), q: *rng.pick(&[1i64, -1, i64::MAX, 0]), now_ns: t0 + rng.below(3_000_000_000) }
@@ -256,7 +264,7 @@ fn main() {
             let with_cancel = arg_u64("--cancel", 0) == 1;
             let nact = if with_cancel { 2 * k + 1 } else { k + 1 };
             for kind in [StoreKind::Per, StoreKind::Ada, StoreKind::Pro] {
-                for (cap, clean) in [(1usize, true), (2, false), (2, true), (1, false)] {
+                for (cap, clean) in [(1usize, true), (2, false), (2, true), (1, false), (2, false), (8, false)] {
                     let progs = gen_progs(&mut rng, k, per, false);
                     let n = nact.pow(d as u32);
                     for code in 0..n {
